@@ -213,7 +213,8 @@ PROPS["C19"] = {"level": "other", "r": {"quick": _step_units("c19", "quick"), "t
                 "files": _ST_FILES, "functions": ["RK4/RK23/DOPRI5/DOP853::solve with an adversarial SolOut"],
                 "explanation": _ST_EXPL + " C19: exactly one callback per accepted step with xold = previous x; Interrupt => UserInterrupt and no further evaluation; ModifiedSolution => the derivative is re-evaluated at (x, written state) and that derivative starts the next step; Continue/XOut => the derivative carried into the next step was evaluated at the accepted (x,y).",
                 "assumptions": _ST_ASSUME, "bounds": "n=1; all feasible paths", "outside": ["Radau, BDF", "'doubling the state doubles everything' (relational)"]}
-PROPS["C11"] = {"level": "other", "r": {"quick": _step_units("c11", "quick") + _step_units("c03", "quick"), "thorough": _step_units("c11", "thorough") + _step_units("c03", "thorough")},
+PROPS["C11"] = {"level": "other", "r": {"quick": _step_units("c11", "quick") + _step_units("c03", "quick") + [_rs().c03_prefix("RK23", False, with_first_step=False), _rs().c03_prefix("DOPRI5", False, with_first_step=False)],
+                                        "thorough": _step_units("c11", "thorough") + _step_units("c03", "thorough")},
                 "files": _ST_FILES, "functions": ["solve() loop heads, step-size clamps, hinit"],
                 "explanation": _ST_EXPL + " C11: accepted intervals <= max_step (1% stretch only on the landing step), |h| <= max_step is part of the preserved loop-head invariant; the first trial step is first_step signed toward xend; max_steps is read once per iteration against the total step count and, once exhausted, the run ends with NeedLargerNMax without further evaluations.",
                 "assumptions": _ST_ASSUME, "bounds": "n=1; all feasible paths", "outside": ["bit-identical prefix of the unbudgeted run (relational)", "Radau, BDF"]}
@@ -249,14 +250,15 @@ def _handler_units(prop, tier):
     if prop == "c08":
         u = [ev(2, [("All", None)]), ev(1, [("Positive", None), ("Negative", None)]), ev(1, [("All", None), ("All", None)], backward=True),
              ev(2, [("Negative", None)], backward=True), ev(1, [("Positive", None)], with_first_step=True, event_values="rich"),
-             ev(1, [("All", None)], event_values="rich")]
+             ev(1, [("All", None)], event_values="rich"), ev(2, [("Positive", None)], with_first_step=True, event_values="near")]
         if not q:
             u += [ev(3, [("All", None)]), ev(2, [("All", None)], event_values="rich"), ev(2, [("Positive", None), ("Negative", None)]),
                   ev(2, [("Positive", None)], with_first_step=True, event_values="rich")]
         return u
     if prop == "c09":
         u = [ev(2, [("All", None)]), ev(2, [("Positive", None)], backward=True), ev(1, [("Negative", None), ("All", None)]),
-             ev(2, [("All", None)], with_teval=1), ev(2, [("All", 2)]), ev(2, [("Negative", None)])]
+             ev(2, [("All", None)], with_teval=1), ev(2, [("All", 2)]), ev(2, [("Negative", None)]), ev(1, [("All", None)], event_values="tiny"),
+             ev(2, [("All", None)], event_values="tiny", backward=True)]
         if not q:
             u += [ev(3, [("Positive", None)]), ev(3, [("All", None)], backward=True), ev(2, [("Negative", None)], event_values="rich"),
                   ev(2, [("Negative", None), ("All", None)])]
@@ -308,7 +310,8 @@ def _c04_r(tier):
     return units
 
 
-_C04_K = _names_from_macro("c04", "c04") + _names_from_macro("c04", "c04_guard")
+_C04_N = _names_from_macro("c04", "c04n")
+_C04_K = _names_from_macro("c04", "c04") + _names_from_macro("c04", "c04_guard") + _C04_N
 PROPS["C04"] = {
     "level": "other",
     "r": {"quick": _c04_r("quick"), "thorough": _c04_r("thorough")},
@@ -384,6 +387,32 @@ PROPS["C20"] = {
 }
 
 
+def _c20_r(tier):
+    import sys
+    if VERIF not in sys.path:
+        sys.path.insert(0, VERIF)
+    from rsym import units_c20 as U20
+    u = [U20.c20_extrapolate_lookup(2), U20.c20_extrapolate_lookup(2, True), U20.c20_extrapolate_lookup(3, True)]
+    if tier != "quick":
+        u += [U20.c20_extrapolate_lookup(3), U20.c20_extrapolate_lookup(4), U20.c20_extrapolate_lookup(4, True)]
+    return u
+
+
+PROPS["C15"]["r"] = {"quick": [_ri().c15_radau_mass_products], "thorough": [_ri().c15_radau_mass_products]}
+PROPS["C15"]["functions"] = PROPS["C15"]["functions"] + ["RADAU::solve: E1/E2 assembly, Newton right-hand side and error-estimate blocks (AST slices by their reads of `mass`)"]
+PROPS["C15"]["explanation"] += (" Engine R (source-level symbolic execution, exact arithmetic, n=2, all M, J, vectors): every block of RADAU::solve that reads the mass matrix uses it as M at the right entry -- "
+                                "E1 = (U1/h)M - J, E2 = ((ALPH/h)M - J) + i(BETA/h)M entrywise, the Newton right-hand side subtracts (M f_k)_i, the error estimate forms (M f1)_i + f0_i; "
+                                "a violation is confirmed natively by integrating M y' = A y (non-symmetric M) against y' = M^-1 A y.")
+PROPS["C15"]["outside"] = [o.replace("Radau's E1/E2 assembly (not interpreted)", "Radau's Newton iteration as a whole (convergence, step control)") for o in PROPS["C15"]["outside"]]
+PROPS["C20"]["r"] = {"quick": _c20_r("quick"), "thorough": _c20_r("thorough")}
+PROPS["C20"]["files"] = PROPS["C20"]["files"] + ["src/solve/cont.rs", "src/dense.rs"]
+PROPS["C20"]["functions"] = PROPS["C20"]["functions"] + ["ContinuousOutput::evaluate / find_segment / evaluate_extrapolate / find_segment_extrapolate (the lookup behind the binding's sol(t))"]
+PROPS["C20"]["explanation"] += (" Second clause decided (engine R, source-level symbolic execution + z3): the segment lookup behind the binding's callable `sol` (ContinuousOutput::evaluate_extrapolate) "
+                                "agrees with the strict lookup behind the Rust Solution::sol on every time inside the covered span (same stored segment, hence the same numbers), never returns nothing while "
+                                "segments exist, and uses an end segment outside the span; symbolic contiguous segments, both directions.")
+PROPS["C20"]["bounds"] += "; R: 2-3 (thorough 4) contiguous segments, symbolic boundaries and query time"
+
+
 # ------------------------------------------------------------------------------- C01 / C13 (R-exact)
 def _rc():
     import sys
@@ -399,6 +428,11 @@ def _c01(tier):
          US.c03_prefix("RK23", False, with_first_step=False), US.c03_prefix("DOPRI5", False, with_first_step=False)]
     if tier != "quick":
         u += [UC.c01_acceptance("DOPRI5", 2), US.c03_prefix("DOP853", False, with_first_step=False), US.c03_prefix("RK23", True, with_first_step=False)]
+    # the other two premises of the accuracy theorem: the step is of order p as applied (C02) and the values handed out
+    # between step ends come from an interpolant of order q evaluated from the step's own stages (C07)
+    U = _r()
+    u += [U.order_unit(m, max_order=7) if (m == "DOP853" and tier == "quick") else U.order_unit(m) for m in ("RK4", "RK23", "DOPRI5", "DOP853")]
+    u += [U.dense_unit(m) for m in ("RK4", "RK23", "DOPRI5", "DOP853")]
     return u
 
 
@@ -409,17 +443,23 @@ def _c13(tier):
     if tier != "quick":
         u += [UC.c13_reflection("DOP853"), UC.c13_scalar_vector("DOP853")]
     US = _rs()
-    u += [US.c03_times("RK23", True), US.c03_times("DOPRI5", True)] if tier != "quick" else [US.c03_times("RK23", True)]
+    # backward-direction inductive step of the step-size control (a direction slip in hnew/landing logic shows here) ...
+    u += [US.c03_times("RK23", True), US.c03_times("DOPRI5", True), US.c03_times("DOP853", True)]
+    # ... and the backward half of the event handling (mirrored event sets: order of integration, terminal stop, earlier events kept)
+    UH = _rh()
+    u += [UH.events_unit("c10", 1, [("All", 1), ("All", None)], backward=True), UH.events_unit("c10", 1, [("All", None), ("Negative", 1)], backward=True),
+          UH.events_unit("c08", 2, [("Negative", None)], backward=True)]
     return u
 
 
 PROPS["C01"] = {
     "level": "other", "r": {"quick": _c01("quick"), "thorough": _c01("thorough")},
-    "files": ["src/methods/rk23.rs", "src/methods/dopri5.rs", "src/methods/radau.rs", "src/methods/mod.rs"],
-    "functions": ["error-estimation blocks and accept tests of RK23/DOPRI5", "RADAU::solve tolerance adjustment", "Tolerance Index/IndexMut", "hinit (through the solve() prefix)"],
+    "files": ["src/methods/rk4.rs", "src/methods/rk23.rs", "src/methods/dopri5.rs", "src/methods/dop853.rs", "src/methods/radau.rs", "src/methods/mod.rs"],
+    "functions": ["RK4/RK23/DOPRI5/DOP853::solve (one iteration: stages, update, dense block)", "error-estimation blocks and accept tests of RK23/DOPRI5", "RADAU::solve tolerance adjustment", "Tolerance Index/IndexMut", "hinit (through the solve() prefix)"],
     "explanation": ("ONLY the per-step error-control contract is decided, not global accuracy: (1) from the symbolically executed step, z3 proves for all y,h,k and positive tolerances that an accepted step "
                     "has |error estimate_i| <= sqrt(n)(atol_i + rtol_i max(|y_i|,|y_new_i|)) (n = 1, 2); (2) Radau's tolerance transformation is applied exactly once per component for scalar and vector "
-                    "tolerances (the real Index/IndexMut impls of Tolerance are interpreted); (3) the automatic initial step respects max_step and the direction (prefix paths with first_step = None)."),
+                    "tolerances (the real Index/IndexMut impls of Tolerance are interpreted); (3) the automatic initial step respects max_step and the direction (prefix paths with first_step = None); "
+                    "(4) the two other premises of the accuracy theorem, shared with C02/C07: all order conditions of the step as applied, and the continuous order conditions of the interpolant built from the step's own stages."),
     "assumptions": ["floats as reals", "the estimator's weights are C02's job"], "bounds": "n <= 2; one step",
     "trusted_base": ["local error control + order => tolerance-proportional global error (standard theorem; NOT decided here)"],
     "outside": ["any statement about the size of the global error, its proportionality to rtol, RK4's fourth-order convergence, t_eval accuracy: whole-run numerical claims, no solver query decides them",
@@ -427,16 +467,25 @@ PROPS["C01"] = {
 }
 PROPS["C13"] = {
     "level": "other", "r": {"quick": _c13("quick"), "thorough": _c13("thorough")},
-    "files": ["src/methods/rk4.rs", "src/methods/rk23.rs", "src/methods/dopri5.rs", "src/methods/dop853.rs", "src/methods/radau.rs", "src/methods/mod.rs"],
-    "functions": ["one main-loop iteration of each explicit solve(), forward and backward", "Tolerance Index/IndexMut", "RADAU tolerance adjustment"],
+    "files": ["src/methods/rk4.rs", "src/methods/rk23.rs", "src/methods/dopri5.rs", "src/methods/dop853.rs", "src/methods/radau.rs", "src/methods/mod.rs", "src/solve/solout.rs"],
+    "functions": ["one main-loop iteration of each explicit solve(), forward and backward", "Tolerance Index/IndexMut", "RADAU tolerance adjustment", "DefaultSolOut::solout (backward event handling)"],
     "explanation": ("Equivariance in EXACT arithmetic, decided by z3 on the symbolically executed step: scalar tolerance == constant vector (error test and new state identical; Radau's transformation too); "
                     "time reflection (backward step applies the same tableau, interpolant, FSAL, and an error norm invariant under (x,h,k) -> (-x,-h,-k)); duplicated system (RMS norm of (e,e) equals that of (e)); "
-                    "plus the backward-direction inductive step of the step-size control (C03 units, backward)."),
+                    "plus the backward-direction inductive step of the step-size control (C03 units, backward: RK23, DOPRI5, DOP853) and the backward half of the output handler's event processing "
+                    "(order of integration, terminal stop, earlier events of the step kept: the facts that make a reflected problem's event set the mirror image)."),
     "assumptions": ["floats as reals: a pure rounding asymmetry is not visible"], "bounds": "n <= 2; one iteration",
     "outside": ["bit-for-bit identity of reflected/scaled runs (relational bit-precise queries: no verdict within reach, DESIGN section 3a)", "power-of-two state scaling", "implicit methods beyond Radau's tolerance handling",
                 "event-time mirroring beyond the handler's backward units (C08-C10)"],
 }
 
+
+# C03's last clause ("under Success all values produced by error-controlled methods are finite"): the NaN half, bit-precisely (K)
+PROPS["C03"]["k"] = {"quick": [n for n in _C04_N if "dop853" not in n and "back" not in n], "thorough": _C04_N}
+PROPS["C03"]["caps"] = {"quick": {"timeout_s": 900, "mem_gb": 12}, "thorough": {"timeout_s": 3600, "mem_gb": 14}}
+PROPS["C03"]["stubs"] = ["f64::powf -> common::powf_model", "f64::powi -> common::powi_model", "IVP::ode -> NaN or a finite value of magnitude <= 1e6 (K harnesses only)"]
+PROPS["C03"]["explanation"] += (" K (Kani/CBMC, bit-precise): with a right-hand side returning NaN or moderate finite values, a run whose first step lands on xend and reports Success "
+                                "has handed no non-finite state to the callback (c04_success_nan_free_*: RK23, DOPRI5; DOP853 and backward in thorough).")
+PROPS["C03"]["outside"] = PROPS["C03"]["outside"] + ["non-finite states produced by overflow of huge finite right-hand-side values (known finding under C04)"]
 
 # BDF main loop (R-round, one iteration, newton_maxiter = 1)
 def _rb():
@@ -455,13 +504,41 @@ for _p in ("C03", "C18", "C19", "C11"):
     PROPS[_p]["outside"] = [o.replace("Radau, BDF", "Radau; BDF with more than one Newton iteration per step").replace("Radau/BDF (not yet interpreted by R)", "Radau; BDF with more than one Newton iteration per step") for o in PROPS[_p]["outside"]]
 PROPS["C18"]["r"]["quick"] = PROPS["C18"]["r"]["quick"] + [_rb().bdf_iteration(False), _rb().bdf_iteration(True)]
 PROPS["C18"]["r"]["thorough"] = PROPS["C18"]["r"]["thorough"] + [_rb().bdf_iteration(False), _rb().bdf_iteration(True)]
+# "contiguous intervals ... ending at xend on success": the interval facts of the same iteration (callback xold = previous x, Success only at xend, invariant incl. `last`)
+PROPS["C19"]["r"]["quick"] = PROPS["C19"]["r"]["quick"] + [_rs().c03_times(m, b) for m, b in _EXPL_Q]
+PROPS["C19"]["r"]["thorough"] = PROPS["C19"]["r"]["thorough"] + [_rs().c03_times(m, b) for m, b in _EXPL_T]
 PROPS["C19"]["r"]["quick"] = PROPS["C19"]["r"]["quick"] + [_rb().bdf_protocol(False), _rb().bdf_protocol(True)]
 PROPS["C19"]["r"]["thorough"] = PROPS["C19"]["r"]["thorough"] + [_rb().bdf_protocol(False), _rb().bdf_protocol(True), _rb().bdf_iteration(False), _rb().bdf_iteration(True)]
-PROPS["C03"]["r"]["quick"] = PROPS["C03"]["r"]["quick"] + [_rb().bdf_iteration(False)]
+PROPS["C03"]["r"]["quick"] = PROPS["C03"]["r"]["quick"] + [_rb().bdf_iteration(False), _rs().c03_prefix("RK23", False, with_first_step=False), _rs().c03_prefix("DOPRI5", False, with_first_step=False)]
 PROPS["C05"]["r"]["quick"] = PROPS["C05"]["r"]["quick"] + [_rb().bdf_iteration(True)]
 PROPS["C05"]["r"]["thorough"] = PROPS["C05"]["r"]["thorough"] + [_rb().bdf_iteration(False), _rb().bdf_iteration(True)]
 PROPS["C03"]["r"]["thorough"] = PROPS["C03"]["r"]["thorough"] + [_rb().bdf_iteration(False), _rb().bdf_iteration(True)]
 PROPS["C11"]["r"]["thorough"] = PROPS["C11"]["r"]["thorough"] + [_rb().bdf_iteration(False), _rb().bdf_iteration(True)]
+
+# Radau (R-round): prefix on all paths (quick); one main-loop iteration with newton_maxiter = 1 (thorough: ~10 min of path enumeration)
+def _rr():
+    import sys
+    if VERIF not in sys.path:
+        sys.path.insert(0, VERIF)
+    from rsym import units_radau as UR
+    return UR
+
+
+_RADAU_NOTE = (" Radau: the prefix of RADAU::solve on all paths (first_step / max_step present or absent, first_step NOT assumed shorter than the interval) establishes the loop-head invariant "
+               "(x + h does not reach beyond xend, `last` exactly when the step ends on xend, |h| <= max_step with RADAU5's 0.01% landing stretch); thorough tier: one main-loop iteration "
+               "(newton_maxiter = 1, LU nondeterministic, matrices / stage increments / norms / convergence bookkeeping free data) for the evaluation-time, callback, counter, status and protocol facts.")
+for _p in ("C03", "C18", "C19"):
+    PROPS[_p]["files"] = PROPS[_p]["files"] + ["src/methods/radau.rs"]
+    PROPS[_p]["explanation"] += _RADAU_NOTE
+    PROPS[_p]["outside"] = [o.replace("Radau; BDF with more", "Radau beyond one Newton iteration per step and the preservation of its loop-head invariant on accepted steps (no solver verdict within the cap); BDF with more") for o in PROPS[_p]["outside"]]
+PROPS["C03"]["r"]["quick"] = PROPS["C03"]["r"]["quick"] + [_rr().radau_prefix(False), _rr().radau_prefix(True)]
+PROPS["C03"]["r"]["thorough"] = PROPS["C03"]["r"]["thorough"] + [_rr().radau_prefix(False), _rr().radau_prefix(True), _rr().radau_iteration(False)]
+PROPS["C18"]["r"]["quick"] = PROPS["C18"]["r"]["quick"] + [_rr().radau_prefix(False)]
+PROPS["C18"]["r"]["thorough"] = PROPS["C18"]["r"]["thorough"] + [_rr().radau_prefix(False), _rr().radau_iteration(False)]
+PROPS["C19"]["r"]["quick"] = PROPS["C19"]["r"]["quick"] + [_rr().radau_prefix(False)]
+PROPS["C19"]["r"]["thorough"] = PROPS["C19"]["r"]["thorough"] + [_rr().radau_prefix(False), _rr().radau_protocol(False)]
+PROPS["C11"]["r"]["quick"] = PROPS["C11"]["r"]["quick"] + [_rr().radau_prefix(False)]
+PROPS["C11"]["files"] = PROPS["C11"]["files"] + ["src/methods/radau.rs"]
 
 # solve_ivp head (zero-interval shortcut, what is handed to the handler)
 for _t in ("quick", "thorough"):
